@@ -158,7 +158,7 @@ theorem blockStageX_tokF {x : Exts} {cfg : Cfg} {src : Str} (hf : x.fencedCode =
     split at h
     · cases h
     · next root0 log0 hpd =>
-      letI : NoCtlF.HtmlBound := ⟨stash'.length, false⟩
+      letI : NoCtlF.HtmlBound := ⟨stash'.length, false, false⟩
       obtain ⟨hroot0, hlog0⟩ := NoCtlXF.XT.block_stage_own_s x.tables x.blockCfg htab hown hpd
       simp only [fnStageX, hfn, Bool.false_eq_true, if_false, FootnotesTree.R.ok.injEq, Prod.mk.injEq] at h
       obtain ⟨rfl, rfl, rfl⟩ := h
